@@ -22,6 +22,9 @@ type Plan struct {
 	TruncAt int `json:"trunc_at"`
 	// ErrAt >= 0: fault — a non-EOF error is returned after that many bytes.
 	ErrAt int `json:"err_at"`
+	// ErrWithData: the read that delivers the last byte before ErrAt also
+	// returns the error, as testing/iotest.DataErrReader does.
+	ErrWithData bool `json:"err_with_data,omitempty"`
 	// LineMode: every read delivers at most up to and including the next
 	// newline (a terminal or line-buffered pipe), in addition to Chunks.
 	LineMode bool   `json:"line_mode,omitempty"`
@@ -41,6 +44,9 @@ func (p Plan) String() string {
 	}
 	if p.ErrAt >= 0 {
 		fmt.Fprintf(&sb, " err@%d", p.ErrAt)
+		if p.ErrWithData {
+			sb.WriteString("(with the last data)")
+		}
 	}
 	if p.LineMode {
 		sb.WriteString(" line-mode")
@@ -66,6 +72,9 @@ func (p Plan) hash() uint64 {
 	}
 	if p.LineMode {
 		b = append(b, 2)
+	}
+	if p.ErrWithData {
+		b = append(b, 3)
 	}
 	return kit.Hash64(b)
 }
@@ -151,6 +160,9 @@ func (s *SimReader) Read(p []byte) (int, error) {
 	s.pos += n
 	if s.pos < limit {
 		s.Splits = append(s.Splits, s.pos)
+	}
+	if s.plan.ErrAt >= 0 && s.plan.ErrWithData && s.pos == s.plan.ErrAt && n > 0 {
+		return n, errInjected
 	}
 	if s.plan.EOFWithData && s.pos == limit {
 		s.sawEOF = true
